@@ -2,6 +2,7 @@ import Lean.Data.Json
 import GristModel
 import Driver.Treeview
 import Driver.Engine
+import Driver.RowIds
 import Driver.PyVal
 import Driver.Recalc
 import Driver.SchemaGen
@@ -32,6 +33,7 @@ def handleStateless (m : String) (j : Json) : Except String Json :=
   | "schemagen" => handleSchemaGen j
   | "recalc" => Grist.Driver.Recalc.handleRecalc j
   | "pyval" => Grist.Driver.PyValD.handlePyVal j
+  | "rowids" => handleRowIds j
   | _ => throw s!"unknown model {m}"
 
 structure AllState where
